@@ -9,6 +9,7 @@
    Numbers are exact rationals: overflow / underflow / division by a zero coefficient (from_mats' debug assertion on
    non-normal floats) are outside the model; * and / are covered at the level of shapes (any coefficient-wise fo). *)
 From AT Require Import Num Vec Aff PTree Ops Cells Abs Cache Reduce Elim CPrune Schema WfC ElimWf CPruneWf OpsWf History HistoryEx D11Wf.
+From AT Require Import RemoveAxesCache RemoveAxesWf.
 
 (* ---- the predicate, in the property's words, and that it is decidable on a dump ---- *)
 (* cwf n m t: every node function is a well-shaped map on R^n; a node flagged as terminal holds a function with
@@ -132,6 +133,10 @@ Example C04_nonvacuous :
   c04_shapes c04_hist = Some (SD SU ST).
 Proof. exact c04_example. Qed.
 
+(* remove_axes (projection onto the kept axes, states reset) keeps a tree well-formed on the smaller input space *)
+Theorem C04_remove_axes : forall mask n m t, length mask = n -> cwft n m t -> cwft (kept mask) m (cremove_axes mask t).
+Proof. exact cremove_axes_cwft. Qed.
+
 Print Assumptions C04_wf_decidable.
 Print Assumptions C04_wf_means.
 Print Assumptions C04_constructors.
@@ -156,3 +161,4 @@ Print Assumptions C04_compose_incompatible_panics.
 Print Assumptions C04_D11_elim_as_found_refuted.
 Print Assumptions C04_D11_compose_as_found_refuted.
 Print Assumptions C04_nonvacuous.
+Print Assumptions C04_remove_axes.
